@@ -111,7 +111,7 @@ impl<'a> World<'a> {
     fn find(&self, method: &str, path: &str) -> &DocOp {
         self.ops.iter().find(|o| o.method == method && o.path == path).unwrap_or_else(|| panic!("no operation {} {}", method, path))
     }
-    fn info(&self, op: &DocOp) -> &OpInfo {
+    pub fn info(&self, op: &DocOp) -> &OpInfo {
         self.server.ops.get(&op.op_id).unwrap_or_else(|| panic!("no info for {}", op.op_id))
     }
 }
@@ -411,6 +411,7 @@ pub fn run_req(w: &World, case: &Value, out: &mut dyn Write) {
     if !b.is_null() {
         tags.push(format!("body:{}", b["ct"].as_str().unwrap_or("")));
     }
+    tags.extend(info.tags.iter().cloned());
     let mut case = case.clone();
     case["target"] = json!(target);
     emit(out, &Line { group: "request", case, obs: obs_j, coq, tags, nontrivial: true });
@@ -444,6 +445,7 @@ pub fn run_doc(w: &World, case: &Value, out: &mut dyn Write) {
         "responses": op.responses.iter().map(|r| json!({"key": format!("{:?}", r.key), "description": r.description,
             "content": r.content.iter().map(|x| x.0.clone()).collect::<Vec<_>>(), "headers": r.headers})).collect::<Vec<_>>(),
     });
-    let tags = vec![format!("doc-params:{}", op.params.len())];
+    let mut tags = vec![format!("doc-params:{}", op.params.len())];
+    tags.extend(info.tags.iter().cloned());
     emit(out, &Line { group: "document", case: case.clone(), obs, coq, tags, nontrivial: true });
 }
